@@ -324,3 +324,82 @@ def coalesce_matrix(i, j, **kw):
     if not conforms(rows[0][0], desc[0].datatype):
         return 'value-not-of-announced-datatype'
     return 'ok'
+
+
+# ---------------------------------------------------------------------------
+# C04.bool: AND / OR / NOT announce bool and accept operands of any type
+
+BOOLOP_COLS = COALESCE_COLS + [('st', set, sym.VChoice([None, set(), {'a'}], set))]
+
+
+def _boolop_params():
+    p = {'i': int, 'j': int, 'form': int}
+    for name, _, dom in BOOLOP_COLS:
+        p.update(dom.params('x' + name))
+        p.update(dom.params('y' + name))
+    return p
+
+
+@cond('C04.bool.and-or-not', quick=300, thorough=900,
+      bounds='c1 AND c2, c1 OR c2, NOT c1, c1 AND c2 AND TRUE, c1 OR c2 OR FALSE for every ordered pair of column datatypes out of '
+             'int, bool, str, Decimal, object, set (falsy non-boolean values - 0, empty string, zero decimal, empty set - '
+             'included): accepted, announced bool, and the value in the result is NULL, TRUE or FALSE - never the operand itself',
+      symbolic='cells', enumerated='datatype pair, form (selectors)', params=_boolop_params())
+def bool_and_or_not(i, j, form, **kw):
+    (n1, t1, d1), (n2, t2, d2) = pick(BOOLOP_COLS, i), pick(BOOLOP_COLS, j)
+    columns = [('c1', t1), ('c2', t2)]
+    c1, c2 = col('c1'), col('c2')
+    node = pick([lambda: ast.And([c1, c2]), lambda: ast.Or([c1, c2]), lambda: ast.Not(c1),
+                 lambda: ast.And([c1, c2, const(True)]), lambda: ast.Or([c1, c2, const(False)])], form)()
+    stmt = sel([target(node, 'r')], 't')
+    x, y = d1.build('x' + n1, kw), d2.build('y' + n2, kw)
+    try:
+        desc, rows = execute(connect(t=HTable('t', columns, [(x, y)])), stmt)
+    except beanquery.CompilationError:
+        return 'boolean-operator-rejected'
+    if desc[0].datatype is not bool:
+        return 'announced-datatype'
+    value = rows[0][0]
+    if not (value is None or value is True or value is False):
+        return 'value-not-of-announced-datatype'
+    return 'ok'
+
+
+# ---------------------------------------------------------------------------
+# C04.group-key: a grouping key the type checker accepts can be hashed at execution
+
+GROUP_KEY_COLS = [('i', int, 1), ('s', str, 'x'), ('b', bool, True), ('d', D, D('1.5')), ('m', dict, {'k': 1}), ('st', set, {'a'}),
+                  ('l', list, ['a']), ('o', object, None), ('inv', inventory.Inventory, _inv(POSITIONS[1]))]
+
+
+@cond('C04.group-key', quick=120,
+      bounds='SELECT c, count(*) GROUP BY <c by position | by name | by alias | implicitly | as a hidden key> for a column c of each '
+             f'of {len(GROUP_KEY_COLS)} datatypes (int, str, bool, Decimal, dict, set, list, object, Inventory) over a two-row table: '
+             'either rejected at compile time or executed without a TypeError, the key cell conforming to its announced datatype',
+      symbolic='(none)', enumerated='datatype, spelling of the key', params={'i': int, 'form': int})
+def group_key(i, form):
+    name, dtype, value = pick(GROUP_KEY_COLS, i)
+    form = enum_int(form, 0, 4)
+
+    def run():
+        count = target(func('count', ast.Asterisk()), 'n')
+        stmt = [
+            lambda: sel([target(col('c')), count], 't', group_by=ast.GroupBy([1], None)),
+            lambda: sel([target(col('c')), count], 't', group_by=ast.GroupBy([col('c')], None)),
+            lambda: sel([target(col('c'), 'cc'), count], 't', group_by=ast.GroupBy([col('cc')], None)),
+            lambda: sel([target(col('c')), count], 't'),
+            lambda: sel([count], 't', group_by=ast.GroupBy([col('c')], None)),
+        ][form]()
+        conn = connect(t=HTable('t', [('c', dtype)], [(value,), (value,)]))
+        try:
+            query = conn.compile(stmt)
+        except beanquery.CompilationError:
+            return 'ok'
+        try:
+            desc, rows = beanquery.query_execute.execute_query(query)
+        except TypeError as exc:
+            return 'type-error-at-execution:' + str(exc)[:60]
+        if form < 4 and not conforms(rows[0][0], desc[0].datatype):
+            return 'value-not-of-announced-datatype'
+        return 'ok'
+    return native(run)
